@@ -4,9 +4,11 @@ worktree and run the relevant checks; any VIOLATION is a false alarm, INCONCLUSI
 import json, os, subprocess, sys, tempfile, shutil, glob
 from concurrent.futures import ThreadPoolExecutor
 VERIF = os.path.dirname(os.path.dirname(os.path.abspath(__file__)))
-AREA = {"R1": ["C01", "C02", "C04", "C06"], "R2": ["C09", "C02", "C04", "C06"], "R3": ["C03", "C19", "C04", "C06", "C01", "C09"],
-        "R4": ["C20", "C18"], "R5": ["C05", "C06", "C03"], "R6": ["C07", "C08", "C04"], "R7": ["C10", "C11", "C12", "C13", "C05", "C02"],
-        "R8": ["C13", "C14", "C15", "C16", "C17", "C12"]}
+AREA = {"R1": ["C01", "C02", "C04", "C06", "C03", "C09"], "R2": ["C09", "C02", "C04", "C06", "C03"], "R3": ["C03", "C19", "C04", "C06", "C01", "C09", "C02"],
+        "R4": ["C20", "C18", "C19", "C03"], "R5": ["C05", "C06", "C03", "C02", "C04"], "R6": ["C07", "C08", "C04", "C06"],
+        "R7": ["C10", "C11", "C12", "C13", "C05", "C02", "C01", "C06", "C08"], "R8": ["C13", "C14", "C15", "C16", "C17", "C12", "C18", "C20", "C06"]}
+ALL = ["C%02d" % i for i in range(1, 21)]
+USE_ALL = "--all" in sys.argv
 
 def one(job):
     area, patch = job
@@ -21,7 +23,7 @@ def one(job):
             return job, [("apply", "FAILED", r.stderr[:200])]
         evd = tempfile.mkdtemp(prefix="ev.", dir="/tmp")
         env = dict(os.environ, VERIF_REPO=wt, VERIF_EVIDENCE_DIR=evd)
-        for p in AREA[area]:
+        for p in (ALL if USE_ALL else AREA[area]):
             r = subprocess.run([os.path.join(VERIF, "check"), p], env=env, capture_output=True, text=True)
             lines = r.stdout.splitlines()
             v = [l for l in lines if l.startswith("VIOLATION")]
@@ -42,7 +44,7 @@ for p in roots:
     if flt and not any(f in p for f in flt):
         continue
     jobs.append((area, p))
-with ThreadPoolExecutor(4) as ex:
+with ThreadPoolExecutor(int(os.environ.get('REFCHECK_J', '4'))) as ex:
     for (area, patch), res in ex.map(one, jobs):
         for p, st, msg in res:
             print("%s %-8s %-4s %-18s %s" % (area, os.path.basename(patch), p, st, msg if st != "ok" else ""))
